@@ -19,6 +19,38 @@ import (
 
 type c15Case struct {
 	X m.XR
+	// Junk != 0: the blocks' exported XRHeader fields hold stale values before Marshal (as after
+	// a decode-edit cycle or when a block struct is reused); Marshal fills the wire header in
+	// from the semantic fields, so what was there before must not matter.
+	Junk uint32 `json:",omitempty"`
+}
+
+func c15ApplyJunk(x *rtcp.ExtendedReport, junk uint32) {
+	if junk == 0 {
+		return
+	}
+	for i, rb := range x.Reports {
+		j := junk*uint32(2*i+1) + uint32(i)
+		h := rtcp.XRHeader{BlockType: rtcp.BlockTypeType(j), TypeSpecific: rtcp.TypeSpecificField(j >> 8), BlockLength: uint16(j >> 16)}
+		switch b := rb.(type) {
+		case *rtcp.LossRLEReportBlock:
+			b.XRHeader = h
+		case *rtcp.DuplicateRLEReportBlock:
+			b.XRHeader = h
+		case *rtcp.PacketReceiptTimesReportBlock:
+			b.XRHeader = h
+		case *rtcp.ReceiverReferenceTimeReportBlock:
+			b.XRHeader = h
+		case *rtcp.DLRRReportBlock:
+			b.XRHeader = h
+		case *rtcp.StatisticsSummaryReportBlock:
+			b.XRHeader = h
+		case *rtcp.VoIPMetricsReportBlock:
+			b.XRHeader = h
+		case *rtcp.UnknownReportBlock:
+			b.XRHeader.BlockLength = h.BlockLength // type and type-specific octet are this block's content
+		}
+	}
 }
 
 var xrGoType = map[uint8]string{
@@ -36,6 +68,7 @@ func xrTypeOf(bt uint8) string {
 var subC15 = harness.NewSub("c15-xr-blocks-self-delimiting", func(c c15Case, _ harness.Dialect) error {
 	p := m.Packet{Kind: m.KXR, XR: &c.X}
 	pk := conv.ToPion(p).(*rtcp.ExtendedReport)
+	c15ApplyJunk(pk, c.Junk)
 	out, err := pk.Marshal()
 	// a block that is not a whole number of words (odd RLE chunk count, opaque content that is
 	// not a multiple of four) cannot carry a block length equal to its size: Marshal must refuse it
@@ -166,7 +199,13 @@ func TestC15(t *testing.T) {
 	}
 	harness.RapidCheck(t, harness.Scale(4000, 30000), 15, func(rt *rapid.T) {
 		c := c15Case{X: *gen.XR(rt, maxBlocks)}
+		if rapid.IntRange(0, 2).Draw(rt, "stale.header?") == 0 {
+			c.Junk = gen.U32(rt, "stale.header") | 1
+		}
 		cl := []string{fmt.Sprintf("blocks:%s", lenBucket(len(c.X.Blocks)))}
+		if c.Junk != 0 {
+			cl = append(cl, "stale-XRHeader-before-Marshal")
+		}
 		for _, b := range c.X.Blocks {
 			cl = append(cl, "bt:"+xrTypeOf(b.BT))
 		}
